@@ -1,4 +1,9 @@
 use serde::{Deserialize, Serialize};
+#[cfg(feature = "verif-hooks")]
+use crate::verif::AtomicU64;
+#[cfg(feature = "verif-hooks")]
+use std::sync::atomic::Ordering;
+#[cfg(not(feature = "verif-hooks"))]
 use std::sync::atomic::{AtomicU64, Ordering};
 use uuid::Uuid;
 
